@@ -799,13 +799,21 @@ func classifyRace(report string) string {
 // ---- engine entry --------------------------------------------------------------------------
 
 func errClass(err error, s *Sink) string {
-	switch {
-	case err == nil:
+	if err == nil {
 		return "nil"
-	case s != nil && errors.Is(err, s.E):
+	}
+	var target error
+	if s != nil {
+		target = s.E
+	}
+	is, text, pan := inspectErr(err, target)
+	switch {
+	case pan != "":
+		return "unusable (panics when inspected): " + pan
+	case s != nil && is:
 		return "writer-error"
 	}
-	return "other:" + err.Error()
+	return "other:" + text
 }
 
 func execSched(spec *RunSpec, st *Stats) *Violation {
